@@ -171,6 +171,17 @@ def run(prop, pc, scratch, tier, seed, repo, verif, log):
 
 
 def replay_search(tests, scratch, repo, log):
-    """native replay search (kx/replay/*.rs): concrete counterexamples on the real code; never proves anything"""
-    r = run_native(tests, scratch, repo, log, label='replay-search', kind='replay', threads=1)
+    """native replay search (kx/replay/*.rs): concrete counterexamples on the real code; never proves anything.
+    Tests named c11_* run on a copy in which result caching is neutralised by one mechanical edit (the property's hypothesis)."""
+    plain = [t for t in tests if not t.startswith('c11_')]
+    nocache = [t for t in tests if t.startswith('c11_')]
+    r = run_native(plain, scratch, repo, log, label='replay-search', kind='replay', threads=1) if plain else None
+    if nocache:
+        r2 = run_native(nocache, scratch, repo, log, label='replay-search', kind='replay-nocache', threads=1)
+        if r is None:
+            r = r2
+        else:
+            r['checks'] += r2['checks']; r['failures'] += r2['failures']
+            if r2['status'] != 'ok' and r['status'] == 'ok':
+                r['status'] = r2['status']; r['reason'] = r2.get('reason', '')
     return r
